@@ -10,31 +10,132 @@ R09.4 the quadrature applies weight * coefficients * sqrt(1-chi^2) * pi/M on the
 from __future__ import annotations
 
 import ast
+import copy
 
 import sympy as sp
 
 from ..core import AnchorMissing, Check, Undecided, calls_in, dotted, kwarg, own_nodes, src
 from ..flow import CFG
-from ..hydro import n, same_term
+from ..hydro import n
+from ..nf import Ctx, eqx, has, match, nf
 from ..terms import Extractor, ITE, SUM, is_zero
 
 LEVEL = "other"
 EOM = "equationOfMotion:EOM"
 
 
+# ------------------------------------------------------------------------------------------------ spelling-independent helpers
+
+
+def _params(fi) -> list:
+    return [a.arg for a in fi.node.args.args if a.arg not in ("self", "cls")]
+
+
+def _plain_target(d):
+    """the Name a plain assignment stores to (None for unpacking / attribute / subscript stores)"""
+    if isinstance(d, ast.Assign) and len(d.targets) == 1 and isinstance(d.targets[0], ast.Name):
+        return d.targets[0]
+    if isinstance(d, ast.AnnAssign) and d.value is not None and isinstance(d.target, ast.Name):
+        return d.target
+    return None
+
+
+def _define(g: CFG, at, e, depth: int = 0):
+    """(CFG node, expression): follow a local used at `at` to its unique reaching plain assignment, repeatedly"""
+    while isinstance(e, ast.Name) and depth < 8:
+        rd = g.reaching_defs(at, e.id)
+        if len(rd) != 1 or rd[0] is CFG.ENTRY or _plain_target(rd[0]) is None:
+            break
+        at, e, depth = rd[0], rd[0].value, depth + 1
+    return at, e
+
+
+def _inline(g: CFG, cx: Ctx, at, e, depth: int = 0):
+    """copy of the expression e evaluated at `at` with locals replaced by their unique reaching plain definition (when the names in
+    that definition have the same reaching definitions at both places, so that the replacement denotes the same value) and calls of
+    simple extracted helpers replaced by their bodies; unlike Ctx.resolve this works for locals assigned more than once"""
+
+    class R(ast.NodeTransformer):
+        def visit_Name(self, x):
+            if not isinstance(x.ctx, ast.Load) or depth >= 6:
+                return x
+            rd = g.reaching_defs(at, x.id)
+            if len(rd) != 1 or rd[0] is CFG.ENTRY or _plain_target(rd[0]) is None or rd[0] is at:
+                return x
+            d = rd[0]
+            inner = {y.id for y in ast.walk(d.value) if isinstance(y, ast.Name)}
+            if x.id in inner or any({id(q) for q in g.reaching_defs(d, nm)} != {id(q) for q in g.reaching_defs(at, nm)} for nm in inner):
+                return x
+            return _inline(g, cx, d, d.value, depth + 1)
+
+        def visit_Lambda(self, x):
+            return x
+
+    out = R().visit(copy.deepcopy(e))
+    return cx.resolve(out, keep=set(cx.local_defs()))      # helpers only
+
+
+def _unpack_index(d, name: str):
+    """position of `name` in the tuple target of an unpacking assignment (None when d is not one)"""
+    if isinstance(d, ast.Assign) and len(d.targets) == 1 and isinstance(d.targets[0], (ast.Tuple, ast.List)):
+        names = [x.id if isinstance(x, ast.Name) else None for x in d.targets[0].elts]
+        if names.count(name) == 1:
+            return names.index(name)
+    return None
+
+
+def _element_of(g: CFG, cx: Ctx, at, e, is_source):
+    """(source call, index) when expression e (used at `at`) is element `index` of the tuple returned by a call satisfying `is_source`:
+    through `a, b = call`, `t = call; a, b = t`, `a = call[k]`"""
+    at, e = _define(g, at, e)
+    if isinstance(e, ast.Subscript) and isinstance(e.slice, ast.Constant) and isinstance(e.slice.value, int):
+        _, v = _define(g, at, e.value)
+        return (v, e.slice.value) if is_source(v) else (None, None)
+    if isinstance(e, ast.Name):
+        rd = g.reaching_defs(at, e.id)
+        if len(rd) == 1 and rd[0] is not CFG.ENTRY:
+            k = _unpack_index(rd[0], e.id)
+            if k is not None:
+                _, v = _define(g, rd[0], rd[0].value)
+                if is_source(v):
+                    return v, k
+    return None, None
+
+
+def _strip_array(e):
+    while isinstance(e, ast.Call) and (dotted(e.func) or "") in ("np.array", "np.asarray", "np.asanyarray") and len(e.args) == 1 and not e.keywords:
+        e = e.args[0]
+    return e
+
+
 def r09_12(chk: Check):
     S = chk.src
     fi = S.func(f"{EOM}.wallProfile")
     chk.touch(fi.name)
-    ex = Extractor(S, positive={"wallParams.widths"})
+    prm = _params(fi)
+    if len(prm) != 4:
+        raise AnchorMissing("wallProfile: expected parameters (z, vevLowT, vevHighT, wallParams)")
+    pz, plo, phi, pwp = prm
+    ex = Extractor(S, positive={f"{pwp}.widths"})
+    cx = Ctx(S, fi)
     ps = [p for p in ex.paths(fi) if p.raised is None]
     if len(ps) != 2:
         raise Undecided(f"wallProfile: expected scalar and broadcast branch, found {len(ps)} paths")
-    z = ex.sym("z")
-    L, d = ex.sym("wallParams.widths"), ex.sym("wallParams.offsets")
-    vL, vH = ex.sym("vevLowT"), ex.sym("vevHighT")
+    z = ex.sym(pz)
+    L, d = ex.sym(f"{pwp}.widths"), ex.sym(f"{pwp}.offsets")
+    vL, vH = ex.sym(plo), ex.sym(phi)
+    labels = set()
     for p in ps:
-        label = "scalar z" if p.guards and p.guards[0].polarity else "array z (broadcast)"
+        # the branch taken when the position argument is a scalar
+        scalar = None
+        for gd in p.guards:
+            e, pol = cx.resolve(gd.node), gd.polarity
+            while isinstance(e, ast.UnaryOp) and isinstance(e.op, ast.Not):
+                e, pol = e.operand, not pol
+            if eqx(e, f"np.isscalar({pz})"):
+                scalar = pol
+        label = "scalar z" if scalar else "array z (broadcast)"
+        labels.add(label)
         f, df = p.value
         unwrap = lambda e: e.args[0] if isinstance(e, sp.core.function.AppliedUndef) and e.func.__name__ == "Fields.castFromNumpy" else e
         f, df = unwrap(f), unwrap(df)
@@ -49,6 +150,8 @@ def r09_12(chk: Check):
         dep = sp.simplify(sp.diff(f.subs({vL: vL + sp.Symbol("sh"), vH: vH + sp.Symbol("sh")}) - f, sp.Symbol("sh")) - 1)
         chk.ob("R09.2", fi.where(), f"wallProfile ({label}): the profile is affine in the vevs (a common shift of both vevs shifts the profile)", dep == 0,
                key=f"affine|{label}")
+    if len(labels) != 2:
+        raise Undecided("wallProfile: the scalar and the broadcast branch are not told apart by np.isscalar(z)")
     chk.floor("R09.1", 2)
     chk.floor("R09.2", 6)
 
@@ -58,71 +161,127 @@ def r09_3(chk: Check):
     fi = S.func(f"{EOM}._intermediatePressureResults")
     chk.touch(fi.name)
     g = CFG(fi.node)
-    defs = {}
-    for st in sorted([x for x in own_nodes(fi.node) if isinstance(x, (ast.Assign, ast.AnnAssign))], key=lambda s_: s_.lineno):
-        t = st.targets[0] if isinstance(st, ast.Assign) else st.target
-        if st.value is None:
-            continue
-        defs.setdefault(n(t).strip("()"), []).append(st)
-    # pressure = eomPoly.integrate(weight=-dzdchi)
-    pres = defs.get("pressure", [])
-    if len(pres) != 1:
-        raise AnchorMissing("_intermediatePressureResults: `pressure` assignment not found")
-    c = pres[0].value
-    w = kwarg(c, "weight", 1) if isinstance(c, ast.Call) else None
-    ok = isinstance(c, ast.Call) and n(c.func) == "eomPoly.integrate" and kwarg(c, "axis", 0) is None and w is not None and n(w).replace(" ", "") == "-dzdchi"
-    chk.ob("R09.2", fi.where(pres[0]), "pressure = integrate(dV/dz, weight = -dz/dchi) over the whole grid: P = -int dz dV/dz = V(low) - V(high)", ok,
+    cx = Ctx(S, fi)
+    prm = _params(fi)
+    if len(prm) < 3:
+        raise AnchorMissing("_intermediatePressureResults: parameters (wallParams, vevLowT, vevHighT, ...) not found")
+    WP, VLO, VHI = prm[:3]
+    rets = [r for r in g.nodes if isinstance(r, ast.Return)]
+    rv = _define(g, rets[0], rets[0].value)[1] if len(rets) == 1 and rets[0].value is not None else None
+    if not isinstance(rv, ast.Tuple) or len(rv.elts) != 4:
+        raise AnchorMissing("_intermediatePressureResults: the returned (pressure, wallParams, boltzmannResults, boltzmannBackground) not found")
+    ret = rets[0]
+    # pressure = <polynomial>.integrate(weight=-dzdchi): the first returned value
+    n_p, c = _define(g, ret, rv.elts[0])
+    c = cx.resolve(c, keep=set(cx.local_defs()))        # look through an extracted helper around the call
+    is_int = isinstance(c, ast.Call) and isinstance(c.func, ast.Attribute) and c.func.attr == "integrate"
+    w = kwarg(c, "weight", 1) if is_int else None
+    J = None
+    n_w = n_p
+    if w is not None:
+        n_w, w = _define(g, n_p, w)
+        b = match(cx.resolve(w, keep=set(cx.local_defs())), "-__J")
+        J = b["J"] if b else None
+    ok = is_int and kwarg(c, "axis", 0) is None or (is_int and eqx(kwarg(c, "axis", 0), "None"))
+    chk.ob("R09.2", fi.where(n_p), "pressure = integrate(dV/dz, weight = -dz/dchi) over the whole grid: P = -int dz dV/dz = V(low) - V(high)", bool(ok) and J is not None,
            n(c)[:100], key="weight-sign")
-    jac = defs.get("dzdchi, _, _", [])
-    ok = len(jac) == 1 and n(jac[0].value) == "self.grid.getCompactificationDerivatives()"
-    chk.ob("R09.3", fi.where(), "dz/dchi is element 0 of self.grid.getCompactificationDerivatives() (grid points without end points)", ok, key="jacobian")
-    poly = defs.get("eomPoly", [])
-    ok = len(poly) == 1 and isinstance(poly[0].value, ast.Call) and n(poly[0].value.func) == "Polynomial" \
-        and [n(a) for a in poly[0].value.args] == ["dVdz", "self.grid"] and not poly[0].value.keywords
+    is_jac = lambda v: isinstance(v, ast.Call) and eqx(v, "self.grid.getCompactificationDerivatives()")
+    call, k = _element_of(g, cx, n_w, ast.Name(id=J, ctx=ast.Load()), is_jac) if J else (None, None)
+    chk.ob("R09.3", fi.where(), "dz/dchi is element 0 of self.grid.getCompactificationDerivatives() (grid points without end points)", call is not None and k == 0, key="jacobian")
+    n_x, poly = _define(g, n_p, c.func.value) if is_int else (None, None)
+    is_poly = isinstance(poly, ast.Call) and eqx(poly.func, "Polynomial")
+    coef = kwarg(poly, "coefficients", 0) if is_poly else None
+    ok = is_poly and coef is not None and eqx(kwarg(poly, "grid", 1), "self.grid", cx) and len(poly.args) + len(poly.keywords) == 2
     chk.ob("R09.3", fi.where(), "the integrand polynomial is Polynomial(dVdz, self.grid) with the defaults (Cardinal, z, no end points)", ok, key="polynomial")
     fpi = S.func("polynomial:Polynomial.__init__")
     a = fpi.node.args
     names = [x.arg for x in a.args]
-    dfl = dict(zip(names[len(names) - len(a.defaults):], [n(d_) for d_ in a.defaults]))
+    dfl = dict(zip(names[len(names) - len(a.defaults):], a.defaults))
     chk.ob("R09.3", fpi.where(), "Polynomial defaults are basis='Cardinal', direction='z', endpoints=False",
-           dfl.get("basis", "").strip("'\"") == "Cardinal" and dfl.get("direction", "").strip("'\"") == "z" and dfl.get("endpoints") == "False", str(dfl),
+           eqx(dfl.get("basis"), "'Cardinal'") and eqx(dfl.get("direction"), "'z'") and eqx(dfl.get("endpoints"), "False"), str({k_: n(v) for k_, v in dfl.items()}),
            key="polynomial-defaults")
-    dv = defs.get("dVdz", [])
-    ok = len(dv) == 1 and same_term(S, "equationOfMotion", "EOM", dv[0].value, "np.sum(np.array(dVfull * dPhidz), axis=1)")
-    ax = None
-    if dv:
-        for c_ in ast.walk(dv[0].value):
-            if isinstance(c_, ast.Call) and (dotted(c_.func) or "").endswith("sum"):
-                ax = kwarg(c_, "axis", 1)
-    okax = ax is not None and (n(ax) == "1" or n(ax).endswith("overFieldTypes"))
-    chk.ob("R09.3", fi.where(), "dV/dz = sum over the field axis (axis 1) of dVfull * dPhidz", bool(ok) and okax, n(dv[0].value) if dv else "", key="dVdz")
-    dvf = defs.get("dVfull", [])
-    ok = len(dvf) == 1 and same_term(S, "equationOfMotion", "EOM", dvf[0].value, "dVdPhi + dVout")
-    chk.ob("R09.3", fi.where(), "dVfull = dV/dphi (equilibrium) + out-of-equilibrium term", bool(ok), key="dVfull")
-    dvp = defs.get("dVdPhi", [])
-    ok = len(dvp) == 1 and n(dvp[0].value) == "self.thermo.effectivePotential.derivField(fields, temperatureProfile)"
+    # dV/dz = sum over the field axis of (dV/dphi + out-of-equilibrium force) * dphi/dz: term level, locals looked through
+    n_d, dv = _define(g, n_x, coef) if coef is not None else (None, None)
+    dvi = _inline(g, cx, n_d, dv) if dv is not None else None
+    okax = False
+    summand = None
+    if isinstance(dvi, ast.Call) and eqx(dvi.func, "np.sum") and dvi.args:
+        ax = kwarg(dvi, "axis", 1)
+        okax = ax is not None and (eqx(ax, "1") or (isinstance(ax, ast.Attribute) and ax.attr == "overFieldTypes"))
+        summand = _strip_array(dvi.args[0])
+    ex = Extractor(S)
+    T = None
+    if summand is not None:
+        try:
+            T = ex.expr(summand, {"__module__": "equationOfMotion", "__class__": "EOM"})
+        except Exception:
+            T = None
+    # the profile pair: the two locals of the integrand that are elements 0 / 1 of one wallProfile call
+    is_prof = lambda v: isinstance(v, ast.Call) and eqx(v.func, "self.wallProfile")
+    pair = {}
+    for nm in sorted({x.id for x in ast.walk(summand) if isinstance(x, ast.Name)} if summand is not None else ()):
+        call, k = _element_of(g, cx, n_d, ast.Name(id=nm, ctx=ast.Load()), is_prof)
+        if call is not None:
+            pair[nm] = (call, k)
+    F = [nm for nm, (c_, k) in pair.items() if k == 0]
+    G = [nm for nm, (c_, k) in pair.items() if k == 1]
+    lin = A = None
+    if isinstance(T, sp.Basic) and len(G) == 1:
+        Gs = ex.sym(G[0])
+        A = T.subs(Gs, 1)
+        lin = sp.expand(T - Gs * A) == 0 and not A.has(Gs)
+    chk.ob("R09.3", fi.where(), "dV/dz = sum over the field axis (axis 1) of dVfull * dPhidz", bool(lin) and okax, n(dv) if dv is not None else "", key="dVdz")
+    DV = [x for x in A.atoms(sp.Function) if x.func.__name__.endswith("effectivePotential.derivField")] if isinstance(A, sp.Basic) and lin else []
+    OUT = None
+    ok = False
+    if len(DV) == 1:
+        OUT = sp.expand(A - DV[0])
+        ok = not OUT.has(DV[0])
+    chk.ob("R09.3", fi.where(), "dVfull = dV/dphi (equilibrium) + out-of-equilibrium term", ok, key="dVfull")
+    ok = False
+    if len(DV) == 1 and len(F) == 1 and len(DV[0].args) == 2 and DV[0].func.__name__ == "thermo.effectivePotential.derivField":
+        tp = DV[0].args[1]
+        # the temperature is the profile of this iteration: from findPlasmaProfile, or the profile supplied by the caller
+        okT = False
+        if isinstance(tp, sp.Symbol):
+            okT = True
+            for d in g.reaching_defs(n_d, tp.name):
+                if d is CFG.ENTRY:
+                    okT = False
+                elif _unpack_index(d, tp.name) == 0 and isinstance(d.value, ast.Call) and eqx(d.value.func, "self.findPlasmaProfile"):
+                    continue
+                elif _plain_target(d) is not None and isinstance(d.value, ast.Name) and d.value.id in prm:
+                    continue
+                else:
+                    okT = False
+        ok = DV[0].args[0] == ex.sym(F[0]) and okT
     chk.ob("R09.3", fi.where(), "dV/dphi = effectivePotential.derivField(fields, temperatureProfile) on the profile's own points", ok, key="dVdPhi")
     # the (fields, dPhidz) pair used in the integrand comes from ONE wallProfile call on grid.xiValues with the final wall parameters
-    wp = [st for st in defs.get("fields, dPhidz", [])]
-    ok = len(wp) == 1 and n(wp[0].value) == "self.wallProfile(self.grid.xiValues, vevLowT, vevHighT, wallParams)"
+    wp = None
+    ok = False
+    if len(F) == 1 and len(G) == 1 and pair[F[0]][0] is pair[G[0]][0]:
+        wp = pair[F[0]][0]
+        ok = eqx(kwarg(wp, "z", 0), "self.grid.xiValues", cx) and eqx(kwarg(wp, "vevLowT", 1), VLO, cx) and eqx(kwarg(wp, "vevHighT", 2), VHI, cx) \
+            and eqx(kwarg(wp, "wallParams", 3), WP)
     chk.ob("R09.3", fi.where(), "fields and dPhidz of the integrand come from one wallProfile(self.grid.xiValues, vevLowT, vevHighT, wallParams) call", ok,
-           n(wp[0].value) if wp else "", key="profile-pair")
-    if wp and dv:
-        # the final wallParams assignment precedes it; no wallParams assignment between them and the integral
-        wpa = [st for st in defs.get("wallParams", [])]
-        ok = all(st.lineno < wp[0].lineno for st in wpa)
+           n(wp) if wp is not None else str(pair)[:120], key="profile-pair")
+    if wp is not None and dv is not None:
+        # the wall parameters the profile was made with are the ones returned: no update between that profile and the end
+        at = g.node_of(wp)
+        a_, b_ = ({id(q) for q in g.reaching_defs(x, WP)} for x in (at, ret))
+        ok = at is not None and a_ == b_ and isinstance(rv.elts[1], ast.Name) and rv.elts[1].id == WP
         chk.ob("R09.3", fi.where(), "no wall-parameter update lies between that profile and the pressure integral", ok, key="params-stable")
     # dVout: sum over particles of dof * msqDerivative * Delta00 / 2
-    dvo = defs.get("dVout", [])
-    okd = False
-    if dvo:
-        ex = Extractor(S)
-        try:
-            t = ex.expr(dvo[0].value, {"__module__": "equationOfMotion", "__class__": "EOM"})
-            okd = isinstance(t, sp.Basic) and "particle.msqDerivative(fields)" in str(t) and "particle.totalDOFs" in str(t) and "Delta00" in str(t) \
-                and sp.simplify(t.subs(ex.sym("particle.totalDOFs"), 0)) == 0 if False else ("particle.msqDerivative(fields)" in str(t) and "/2" in str(t).replace(" ", ""))
-        except Exception:
-            okd = None
+    okd = None
+    if OUT is not None and len(F) == 1:
+        okd = False
+        two = sp.simplify(2 * OUT)
+        if isinstance(two, sp.Basic) and two.func == SUM and two.args:
+            fac = sp.Mul.make_args(two.args[0])
+            dof = [x for x in fac if isinstance(x, sp.Symbol) and x.name.endswith(".totalDOFs")]
+            msq = [x for x in fac if isinstance(x, sp.core.function.AppliedUndef) and x.func.__name__.endswith(".msqDerivative") and x.args == (ex.sym(F[0]),)]
+            dlt = [x for x in fac if isinstance(x, (sp.Symbol, sp.core.function.AppliedUndef)) and "Delta00.coefficients" in str(x)]
+            okd = len(fac) == 3 and len(dof) == 1 and len(msq) == 1 and len(dlt) == 1 and dof[0].name.rsplit(".", 1)[0] == msq[0].func.__name__.rsplit(".", 1)[0]
     chk.ob("R09.3", fi.where(), "out-of-equilibrium force = (1/2) sum_particles dof * dm^2/dphi * Delta00 (vanishes without such particles)", okd, key="dVout")
     # grid state: only _updateGrid rescales; it runs once per pressure evaluation, before any integrand is built
     callers_change = []
@@ -147,23 +306,68 @@ def r09_3(chk: Check):
     chk.floor("R09.3", 12)
 
 
+def _weights_site(S, fi, W: str):
+    """(function, local) where the quadrature weights named W in `fi` are built: `fi` itself, or the method of the same class whose
+    result is stored in W (an extracted, not necessarily straight-line, helper)"""
+    for st in own_nodes(fi.node):
+        if isinstance(st, (ast.Assign, ast.AnnAssign)) and _plain_target(st) is not None and _plain_target(st).id == W and isinstance(st.value, ast.Call) \
+                and isinstance(st.value.func, ast.Attribute) and isinstance(st.value.func.value, ast.Name) and st.value.func.value.id == "self" and fi.cls:
+            h = S.modules[fi.module].funcs.get(f"{fi.cls}.{st.value.func.attr}")
+            if h is not None:
+                rets = [r for r in own_nodes(h.node) if isinstance(r, ast.Return) and isinstance(r.value, ast.Name)]
+                if len(rets) == 1:
+                    return h, rets[0].value.id
+    return fi, W
+
+
 def r09_4(chk: Check):
+    from .c01 import _dominating_tests, _positive
     S = chk.src
     fi = S.func("polynomial:Polynomial.integrate")
     chk.touch(fi.name)
-    defs = {}
+    cx = Ctx(S, fi)
+    g = CFG(fi.node)
+    wparam = "weight" if "weight" in fi.params() else None
+    if wparam is None:
+        raise AnchorMissing("Polynomial.integrate: parameter `weight` not found")
+    # the accumulated integrand: the local initialised with weight * coefficients
+    INT = None
     for st in own_nodes(fi.node):
-        if isinstance(st, ast.Assign):
-            defs.setdefault(n(st.targets[0]), []).append(st.value)
-    ok = any(n(v) == "weight * self.coefficients" for v in defs.get("integrand", []))
-    chk.ob("R09.4", fi.where(), "quadrature: integrand = weight * coefficients (cardinal coefficients are grid values)", ok, key="integrand")
-    mult = [x for x in own_nodes(fi.node) if isinstance(x, ast.AugAssign) and n(x.target) == "integrand" and isinstance(x.op, ast.Mult)]
-    ok = len(mult) == 1 and "np.sqrt(1 - compactCoord ** 2) * weights" in n(mult[0].value)
-    chk.ob("R09.4", fi.where(), "quadrature: each integrated axis is multiplied by sqrt(1 - chi^2) * (pi / M) weights (Gauss-Chebyshev-Lobatto)", ok, key="gcl-weight")
-    zw = False
+        if isinstance(st, (ast.Assign, ast.AnnAssign)) and st.value is not None and _plain_target(st) is not None and eqx(st.value, f"{wparam} * self.coefficients", cx):
+            INT = _plain_target(st).id
+    chk.ob("R09.4", fi.where(), "quadrature: integrand = weight * coefficients (cardinal coefficients are grid values)", INT is not None, key="integrand")
+    mult = []
     for x in own_nodes(fi.node):
-        if isinstance(x, ast.If) and n(x.test).replace(" ", "") in ('self.direction[i]=="z"', "self.direction[i]=='z'"):
-            zw = any(isinstance(s_, ast.AugAssign) and n(s_.target) == "weights" and isinstance(s_.op, ast.Div) and n(s_.value) == "self.grid.M" for s_ in x.body)
+        if INT is None:
+            break
+        if isinstance(x, ast.AugAssign) and isinstance(x.op, ast.Mult) and eqx(x.target, INT):
+            mult.append(x.value)
+        elif isinstance(x, ast.Assign) and eqx(x.targets[0], INT) and isinstance(x.value, ast.BinOp) and isinstance(x.value.op, ast.Mult) \
+                and (eqx(x.value.left, INT) or eqx(x.value.right, INT)):
+            mult.append(x.value.right if eqx(x.value.left, INT) else x.value.left)
+    W = None
+    if len(mult) == 1:
+        for y in ast.walk(cx.resolve(mult[0], keep={wparam})):
+            b = match(y, "np.sqrt(1 - __C ** 2) * __W") if isinstance(y, ast.BinOp) else None
+            if b is not None:
+                # C: the compact coordinates of the integrated axis
+                cdef = cx.local_defs().get(b["C"])
+                cands = [st.value for st in own_nodes(fi.node) if isinstance(st, (ast.Assign, ast.AnnAssign)) and _plain_target(st) is not None and _plain_target(st).id == b["C"]]
+                if cands and all(isinstance(v, ast.Call) and eqx(v.func, "self.grid.getCompactCoordinates") for v in cands):
+                    W = b["W"]
+    chk.ob("R09.4", fi.where(), "quadrature: each integrated axis is multiplied by sqrt(1 - chi^2) * (pi / M) weights (Gauss-Chebyshev-Lobatto)", W is not None, key="gcl-weight")
+    zw = False
+    if W is not None:
+        fh, Wh = _weights_site(S, fi, W)
+        chk.touch(fh.name)
+        gh = CFG(fh.node)
+        ch = Ctx(S, fh)
+        for x in gh.nodes:
+            if eqx(x, f"{Wh} /= self.grid.M") or eqx(x, f"{Wh} = {Wh} / self.grid.M"):
+                for t, pol in _dominating_tests(gh, x):
+                    e, pol = _positive(t, pol, ch)
+                    if pol and match(e, "self.direction[__I] == 'z'") is not None:
+                        zw = True
     chk.ob("R09.4", fi.where(), "quadrature: the z direction uses pi / M", zw, key="z-weight")
     chk.floor("R09.4", 3)
 
